@@ -492,3 +492,43 @@ def run(ck, prog):
     _run_pre_stride(ck, prog)
     from sa import stride
     stride.run_rule(ck, prog, set(DIMENSION_FILES))
+
+
+
+# ------------------------------------------------------------------ the centroid update divides by a member count only behind a test of it
+_run_pre_countdiv = run
+
+
+def centroid_division_guarded(ck, prog):
+    """'k finite centroids': a cluster can lose all its rows during the iterations; sums / size is then 0/0 = NaN, and the NaN
+    centroid poisons every later assignment.  Guarded-division rule on KMeans::fit: a division by a value converted from the
+    member counts sits behind a `> 0` / `!= 0` test of that count."""
+    from sa import divguard
+    from sa.prov import subterms as _st
+    rule, inst = "E2-guarded-division", "KMeans::fit: the centroid update divides by a cluster size only behind a test of it"
+    b = prog.bodies.get("cluster::kmeans::KMeans::<T>::fit")
+    if b is None:
+        ck.violation(rule, inst, "KMeans::fit", "", expected="anchor exists", found="anchor vanished")
+        return
+    sizes = {l for l in range(len(b.locals)) if (b.local_name(l) or "") in ("size", "sizes", "counts")}
+
+    def is_count(t):
+        return t[0] == "idx" and t[1][0] in ("phi", "local") and t[1][1] in sizes
+    sites = divguard.check(b, is_count)
+    if not sites:
+        ck.note(f"{inst}: no division by a converted member count in KMeans::fit: no instance")
+        return
+    for k, (where, den, guarded) in enumerate(sites):
+        if guarded:
+            ck.ok(rule, inst, b.path, where, "division behind a non-zero test of the count")
+        else:
+            ck.violation(rule, inst, b.path, where, ordinal=k, expected="`if size[i] > 0` around the update of centroid i",
+                         found=f"divides by `{render(den)[:70]}` unconditionally: 0/0 = NaN for a cluster that lost all its rows")
+
+
+def run(ck, prog):
+    _run_pre_countdiv(ck, prog)
+    centroid_division_guarded(ck, prog)
+
+
+EXPLANATION += " The centroid update divides by a member count only behind a non-zero test of that count."
